@@ -94,13 +94,15 @@ EdgeStep == /\ g.phase = "edges" /\ Len(g.edges) < EdgeBound(g) /\ ~g.solo
             /\ \E f \in ((-g.nunits)..(-1)) \cup (1..g.n) : \E t \in (-g.nunits)..g.n :
                  /\ EdgeIndex(g, f, t) > g.last
                  /\ (f < 0 => Len(g.edges) = 0 /\ g.n <= RootN /\ t >= 0)     \* at most one reference held by a root
-                 /\ \/ g' = [g EXCEPT !.edges = Append(@, <<f, t, "", "">>), !.last = EdgeIndex(g, f, t)]
+                 /\ \/ g' = [g EXCEPT !.edges = Append(@, <<f, t, "", "", "">>), !.last = EdgeIndex(g, f, t)]
                     (* single-edge graphs over few entries: every kind that can encode the edge, *)
                     (* location-list references in every kind of location entry                  *)
                     \/ /\ Len(g.edges) = 0 /\ g.n <= KindN
                        /\ \E k \in Range(KindsFor(g, f, t)) :
                           \E loc \in (IF IsLoc(k) THEN Range(LocEntryKinds) ELSE {""}) :
-                            g' = [g EXCEPT !.edges = Append(@, <<f, t, k, loc>>), !.last = EdgeIndex(g, f, t),
+                          (* every range shape for one location-list kind that fits any edge *)
+                          \E shape \in (IF k = "l_callref" THEN Range(LocShapes) ELSE {""}) :
+                            g' = [g EXCEPT !.edges = Append(@, <<f, t, k, loc, shape>>), !.last = EdgeIndex(g, f, t),
                                            !.solo = TRUE]
 Finish == /\ g.phase = "edges"
           /\ g' = [g EXCEPT !.phase = "final"]
@@ -116,11 +118,15 @@ LocOf(s, i) == IF ~IsLoc(KindOf(s, i)) THEN ""
                ELSE IF s.edges[i][4] # "" THEN s.edges[i][4]
                ELSE LocEntryKinds[((Rot(s) + 7 * i + 3 * s.edges[i][1] + s.edges[i][2] + 2 * s.nunits) % Len(LocEntryKinds)) + 1]
 
+ShapeOf(s, i) == IF ~IsLoc(KindOf(s, i)) THEN ""
+                 ELSE IF s.edges[i][5] # "" THEN s.edges[i][5]
+                 ELSE LocShapes[((Rot(s) + 5 * i + s.edges[i][1] + 3 * s.edges[i][2] + s.nunits) % Len(LocShapes)) + 1]
+
 Graph(s) ==
     LET tags == [e \in 1..s.n |-> TagOf(s.class[e], e, s.parent[e] = 0, Rot(s))] IN
     [n |-> s.n, nunits |-> s.nunits, unit |-> s.unit, parent |-> s.parent, tag |-> tags,
      decl |-> [e \in 1..s.n |-> DeclOf(s.class[e], tags[e])],
-     refs |-> [i \in 1..Len(s.edges) |-> [from |-> s.edges[i][1], to |-> s.edges[i][2], kind |-> KindOf(s, i), loc |-> LocOf(s, i)]]]
+     refs |-> [i \in 1..Len(s.edges) |-> [from |-> s.edges[i][1], to |-> s.edges[i][2], kind |-> KindOf(s, i), loc |-> LocOf(s, i), shape |-> ShapeOf(s, i)]]]
 
 (* all subsets of entries, in a fixed order *)
 RECURSIVE Subsets(_)
@@ -137,6 +143,7 @@ DecisiveRefs(G) == {j \in DOMAIN G.refs :
 Decisive(G) == {G.refs[i].kind : i \in DecisiveRefs(G)}
 (* location entry kinds of the decisive location-list references *)
 DecisiveLocs(G) == {G.refs[i].loc : i \in {j \in DecisiveRefs(G) : G.refs[j].loc # ""}}
+DecisiveShapes(G) == {G.refs[i].shape : i \in {j \in DecisiveRefs(G) : G.refs[j].shape # ""}}
 (* tags whose classification decides a result: a member-like child that is   *)
 (* retained only as a member of its parent, or a stand-alone child that is    *)
 (* not in the closure of its parent                                          *)
@@ -163,7 +170,7 @@ Case(G, subs, res, nd, must1, want5) ==
      refs |-> G.refs,
      invalid |-> {e \in 1..G.n : HasInvalidRef(G, e)}, rootinvalid |-> RootInvalid(G),
      exp |-> [k \in DOMAIN subs |-> [req |-> subs[k], must |-> res[k].M, may |-> res[k].Y]],
-     decisive |-> Decisive(G), dlocs |-> DecisiveLocs(G), dtags |-> DecisiveTags(G, nd, must1),
+     decisive |-> Decisive(G), dlocs |-> DecisiveLocs(G), dshapes |-> DecisiveShapes(G), dtags |-> DecisiveTags(G, nd, must1),
      want5 |-> want5]
 
 (* The closure operators distribute over union, so the closures of all      *)
